@@ -157,7 +157,7 @@ pub fn explore(ctx: &Ctx) {
 }
 
 pub fn replay(ctx: &Ctx, _clause: &str, case: &Value) {
-    let c: PtCase = serde_json::from_value(case.clone()).expect("case");
+    let c: PtCase = serde_json::from_value::<PtCase>(case.clone()).map(PtCase::fix).expect("case");
     let mut l = Local::default();
     judge(ctx, &mut l, &c.params, c.site, c.date, true);
     println!("  result: {}", fmt_r(&c.run()));
